@@ -55,7 +55,7 @@ def obligations(ctx):
                 keep.append(o)
         else:
             keep.append(o)
-    return keep + census(ctx) + lemmas(ctx)
+    return keep + ctx.part(census) + ctx.part(lemmas)
 
 
 def census(ctx):
